@@ -493,7 +493,46 @@ func c12Coherence(rep *report, sink *checkCaseSink, s *schemeOps) {
 			}
 		}
 	}
+	// genuine hashes in the variants NewHash never writes (implicit round count, several lanes, legacy prefixes)
+	hs = append(hs, constructedHashes(s, pw)...)
+	// coherence must hold whatever was verified just before: all ordered pairs of a few well-formed hashes of
+	// different shapes (b is judged right after a)
+	{
+		var wf []string
+		shapes := map[string]bool{}
+		for _, h := range hs {
+			rc := recognise(s.name, h)
+			shape := fmt.Sprint(strings.Count(h, "$"), strings.Count(h, "="), len(h))
+			if rc.ok && !rc.skip && !tooExpensive(s.name, rc) && !shapes[shape] && len(wf) < 8 {
+				shapes[shape] = true
+				wf = append(wf, h)
+			}
+		}
+		for _, a := range wf {
+			for _, b := range wf {
+				checkWatch(s, a, pw)
+				err, pan := checkWatch(s, b, pw)
+				prm, perr := s.params(b)
+				if perr != nil {
+					continue
+				}
+				key, kerr := s.key(pw, prm)
+				if kerr != nil {
+					continue
+				}
+				match := refSum(s.name, key) == recognise(s.name, b).sum
+				if (err == nil && pan == nil) != match {
+					rep.fail(map[string]interface{}{"scheme": s.name, "hash": b, "password": pw, "verified_just_before": a},
+						fmt.Sprintf("verifies iff Key(Params(hash)) re-encodes to the stored digest (%v)", match), fmt.Sprint(err, pan), "Check disagrees with Params and Key after another hash was verified")
+				}
+				rep.bump("c12_coherence_pairs")
+			}
+		}
+	}
 	for _, h := range hs {
+		if rc := recognise(s.name, h); tooExpensive(s.name, rc) {
+			continue
+		}
 		for _, p := range []string{pw, "wrong"} {
 			prm, perr := s.params(h)
 			err, pan := sink.add(s, h, p, true, "coherence")
